@@ -38,9 +38,15 @@ def conformance(ctx, n, hists, label, forest):
     rest = [h for h in hists if len(h) < maxlen and tuple(map(tuple, h)) not in prefixes]
     todo = full + rest
     chunks = [todo[i::8] for i in range(8) if todo[i::8]]
-    results = ctx.harness_parallel("routing_replay.py", [{"N": n, "hists": c} for c in chunks])
+    # node names are inputs: numeric one-character names, and two mixed schemes (one-character names that are
+    # characters of longer names)
+    payloads = [{"N": n, "hists": c, "scheme": 0} for c in chunks]
+    for sch in (1, 2):
+        sub = todo if len(todo) <= 12000 else todo[sch::(len(todo) // 12000 + 1)]
+        payloads += [{"N": n, "hists": c, "scheme": sch} for c in [sub[i::4] for i in range(4)] if c]
+    results = ctx.harness_parallel("routing_replay.py", payloads, procs=16)
     # merge distinct projected states over chunks
-    states, order, steps, first_hist = {}, [], set(), {}
+    states, order, steps, first_hist, names_of = {}, [], set(), {}, {}
     for res in results:
         remap = {}
         for i, p in enumerate(res["states"], start=1):
@@ -49,11 +55,12 @@ def conformance(ctx, n, hists, label, forest):
                 states[key] = len(order) + 1
                 order.append(p)
                 first_hist[states[key]] = res["first_hist"][str(i)]
+                names_of[states[key]] = res["names"]
             remap[i] = states[key]
         for s in res["steps"]:
             steps.add((remap[s["pre"]], remap[s["post"]], s["a"], s["b"]))
         for m in res["api_mismatch"]:
-            ctx.violation("node/api-vs-tables", m["what"], m)
+            ctx.violation("node/routing-loop" if "never terminates" in m["what"] else "node/api-vs-tables", m["what"], m)
     ctx.traces += len(todo)
     ctx.evaluations += len(todo)
     steps = sorted(steps)
@@ -77,7 +84,7 @@ def conformance(ctx, n, hists, label, forest):
             for clause in f:
                 key = {"shortest": "shortest/cyclic-graph"}.get(clause, clause)
                 ctx.violation(key, f"after links {hist}: clause {clause} fails on real Node tables",
-                              {"N": n, "hist": hist, "clause": clause, "state": order[k - 1],
+                              {"N": n, "hist": hist, "clause": clause, "state": order[k - 1], "node_names": names_of.get(k),
                                "reproduce": "nodes=[Node(str(i)) for i in 1..N]; for a,b in hist: nodes[a-1]+nodes[b-1]; "
                                             "compare [x.name for x in nodes[a].path(str(t))] with BFS distance"})
         else:
